@@ -30,7 +30,7 @@ Proof.
     [ | destruct (std_payload_cons d Hstd) as (pa & pr & ->); discriminate | exact Htb | exact Hp | left; discriminate
       | left; apply stype_not_p2shseg ].
   clear Htb Hp.
-  destruct fx as [fw fn fp tb0]. cbn [fx_witver] in Hg.
+  destruct fx as [fw fn fp fa tb0]. cbn [fx_witver] in Hg.
   std_shapes d Hstd; (each_net Hn; (destruct fw, fn, fp;
     first [ guard_false Hg
           | vm_compute; split; [reflexivity|]; eexists; repeat split; reflexivity ])).
